@@ -212,3 +212,13 @@ MUTANTS += [
     dict(id="x09-chain-skips-zero-bytes", base="benign2/C09/B.diff", fires=["C09"], key="new", edits=[("src/ctap1.rs",
          "response.public_key.push(byte).unwrap();", "if byte != 0 {\n                    response.public_key.push(byte).unwrap();\n                }")]),
 ]
+
+# mutated refactorings of the fourth benign round (macro-generated tables, fold-style loops)
+MUTANTS += [
+    dict(id="x18-macro-table-misspelt-row", base="benign4/C18/B.diff", fires=["C18"], key="ThirdPartyPayment", edits=[("src/ctap2/get_info.rs",
+         'ThirdPartyPayment => THIRD_PARTY_PAYMENT = "thirdPartyPayment",', 'ThirdPartyPayment => THIRD_PARTY_PAYMENT = "thirdpartyPayment",')]),
+    dict(id="x14-try-fold-flag-and", base="benign4/C14/B.diff", fires=["C14", "C01"], key="formats", edits=[("src/ctap2.rs",
+         "preference.unknown |= format.is_none();", "preference.unknown = format.is_none();")]),
+    dict(id="x14-then-some-negated", base="benign4/C03/B.diff", fires=["C14"], key="known", edits=[("src/webauthn.rs",
+         ".contains(&alg)\n            .then_some(Self { alg })", ".contains(&alg)\n            .then_some(Self { alg: -alg })")]),
+]
